@@ -251,6 +251,125 @@ def thread_part(v, quick, seed):
     v.cov["traces_validated_against_impl"] += n
 
 
+# ---------------------------------------------------------------- a pack() issued while another packet is being serialised
+def _has_packlen(x):
+    return '"packlen"' in json.dumps(x)
+
+
+class _Unsupported(Exception):
+    pass
+
+
+def _pure_len(prog, cls, base):
+    """an expression of the declaration language that computes len(<base>.pack()) WITHOUT serialising anything, for a
+    class made of integers, sized byte strings and references to such classes (no positioning, no delimiters)"""
+    if prog[cls]["opts"]["align"]:
+        raise _Unsupported(cls)
+    total = {"e": "c", "v": 0}
+    for f in prog[cls]["fields"]:
+        if f.get("mv", {"kind": "none"})["kind"] != "none":
+            raise _Unsupported(f["name"])
+        if f["k"] == "Int":
+            term = {"e": "c", "v": f["n"]}
+        elif f["k"] == "Data" and f["size"]["m"] in ("const", "field", "expr"):
+            term = {"e": "un", "op": "len", "a": {"e": "attr", "a": base, "n": f["name"]}}
+        elif f["k"] == "Ref":
+            term = _pure_len(prog, f["cls"], {"e": "attr", "a": base, "n": f["name"]})
+        else:
+            raise _Unsupported(f["k"])
+        total = {"e": "bin", "op": "add", "l": total, "r": term}
+    return total
+
+
+def twin_prog(prog):
+    """the same declaration with every len(<field>.pack()) replaced by the pure computation of that length"""
+    def walk(x, cls):
+        if isinstance(x, dict):
+            if x.get("e") == "packlen":
+                a = x["a"]
+                if a.get("e") != "f":
+                    raise _Unsupported("packlen of %r" % (a,))
+                tgt = next(f for f in prog[cls]["fields"] if f["name"] == a["n"])
+                if tgt["k"] != "Ref":
+                    raise _Unsupported(tgt["k"])
+                return _pure_len(prog, tgt["cls"], a)
+            return {k: walk(val, cls) for k, val in x.items()}
+        if isinstance(x, list):
+            return [walk(y, cls) for y in x]
+        return x
+    return {c: {"opts": cd["opts"], "fields": walk(cd["fields"], c)} for c, cd in prog.items()}
+
+
+def _np_run(job):
+    """one case on the declaration and on its twin: the bytes (or the failure) of pack() must be the same whether the
+    callable serialises the nested packet or computes the same number without serialising anything"""
+    kind, prog, root, case, gen = job
+    sc = _W["sc"]
+    from bind import replay_values as rv
+    out = []
+    tw = twin_prog(prog)
+    res = []
+    for pr in (prog, tw):
+        mod = sc.load(pr, gen)
+        if kind == "parse":
+            ro = rp.run_unpack(mod, root, case["raw"], case["start"], with_events=False)
+            if ro["st"] != "done":
+                res.append(("unpack-" + ro["st"], None))
+                continue
+            pkt = ro["pkt"]
+        else:
+            pkt = getattr(mod, root)(**rv.build_kwargs(mod, case["K"]))
+        po = rp.run_pack(mod, pkt, with_events=False)
+        res.append((po["st"], po.get("out")))
+    if res[0] != res[1]:
+        out.append({"clause": "C13_nested_pack", "gen": gen, "declaration": prog, "case": {k: case[k] for k in ("raw", "start", "K") if k in case},
+                    "detail": "pack() gives %r when a callable serialises a nested packet on the way and %r when the same number is "
+                              "computed without serialising (the inner pack() disturbed the outer one)" % (res[0], res[1])})
+    return 1, out
+
+
+def _np_chunk(jobs):
+    n, out = 0, []
+    for j in jobs:
+        k, o = _np_run(j)
+        n += k
+        out.extend(o)
+    return n, out
+
+
+def nested_pack_part(v, quick, seed, vres):
+    import random
+    from lib import packetprofile as pp
+    rnd = random.Random(seed + 11)
+    jobs = []
+    res = pp.run_mc(v, "U_C01_Reent", ["Inv_Machine"], label="MC_Packet U=U_C01_Reent (callables that serialise a nested packet: pack() re-entered)")
+    by_d = {}
+    for c in res.emits:
+        if c["u"]["st"] == "done":
+            by_d.setdefault(c["d"], []).append(c)
+    for d, cs in sorted(by_d.items()):
+        dd = res.univ[d - 1]
+        for c in rnd.sample(cs, min(len(cs), 150 if quick else 1500)):
+            for gen in (rp.GEN_OFF, None):
+                jobs.append(("parse", dd["prog"], dd["root"], {"raw": c["raw"], "start": c["start"]}, gen))
+    for c in vres.emits:
+        dd = vres.univ[c["d"] - 1]
+        if _has_packlen(dd["prog"]):
+            for gen in (rp.GEN_OFF, None):
+                jobs.append(("build", dd["prog"], dd["root"], {"K": c["K"]}, gen))
+    chunks = [jobs[i:i + 100] for i in range(0, len(jobs), 100)]
+    ctx = multiprocessing.get_context("fork")
+    n = 0
+    with ctx.Pool(14, initializer=_winit) as pool:
+        for k, out in pool.imap_unordered(_np_chunk, chunks):
+            n += k
+            for b in out:
+                if len(v.violations) < 50:
+                    v.violation("C13_nested_pack", b["detail"], b)
+    v.cov["traces_validated_against_impl"] += n
+    v.cov["nested_pack_cases"] = n
+
+
 def run(tier, seed):
     v = common.Verdict("C13", tier, seed)
     common.bind_repo()
@@ -293,7 +412,8 @@ def run(tier, seed):
     # constructed packets: two constructions share no mutable object (defaults are deep copies, at every depth), and
     # pack() leaves what the attributes read as - described fields forced by the user included - and its own output alone
     from lib import valuesprofile as vp
-    vp.exhaustive_part(v, "U_C19", [], [rp.GEN_OFF, None], {"C13_shared_default", "C13_pack_pure"})
+    vres = vp.exhaustive_part(v, "U_C19", [], [rp.GEN_OFF, None], {"C13_shared_default", "C13_pack_pure"})
+    nested_pack_part(v, quick, seed, vres)
     thread_part(v, quick, seed)
     v.cov["exhaustive"] = True
     v.cov["rule"] = ("TLC: all histories of <= 4 (5) operations over <= 2 (3) live packets for three programs (merged states, action "
